@@ -6,6 +6,7 @@ open Consts
 open Datatypes
 open List0
 open Nat0
+open PeanoNat
 
 (** val is_hex_lc : coq_N -> bool **)
 
@@ -123,91 +124,98 @@ type helper =
 type zstate = { upload : bool; cf : bool; sf : bool; eo : bool;
                 stopped : bool; cleaned : bool; hp : helper; reader : 
                 bool; lpend : bool; tcu : bool; tcl : bool; tsv : bool;
-                ksched : bool }
+                ksched : bool; gbegun : bool }
 
 (** val set_cf : bool -> zstate -> zstate **)
 
 let set_cf v s =
   { upload = s.upload; cf = v; sf = s.sf; eo = s.eo; stopped = s.stopped;
     cleaned = s.cleaned; hp = s.hp; reader = s.reader; lpend = s.lpend; tcu =
-    s.tcu; tcl = s.tcl; tsv = s.tsv; ksched = s.ksched }
+    s.tcu; tcl = s.tcl; tsv = s.tsv; ksched = s.ksched; gbegun = s.gbegun }
 
 (** val set_sf : bool -> zstate -> zstate **)
 
 let set_sf v s =
   { upload = s.upload; cf = s.cf; sf = v; eo = s.eo; stopped = s.stopped;
     cleaned = s.cleaned; hp = s.hp; reader = s.reader; lpend = s.lpend; tcu =
-    s.tcu; tcl = s.tcl; tsv = s.tsv; ksched = s.ksched }
+    s.tcu; tcl = s.tcl; tsv = s.tsv; ksched = s.ksched; gbegun = s.gbegun }
 
 (** val set_eo : bool -> zstate -> zstate **)
 
 let set_eo v s =
   { upload = s.upload; cf = s.cf; sf = s.sf; eo = v; stopped = s.stopped;
     cleaned = s.cleaned; hp = s.hp; reader = s.reader; lpend = s.lpend; tcu =
-    s.tcu; tcl = s.tcl; tsv = s.tsv; ksched = s.ksched }
+    s.tcu; tcl = s.tcl; tsv = s.tsv; ksched = s.ksched; gbegun = s.gbegun }
 
 (** val set_stopped : bool -> zstate -> zstate **)
 
 let set_stopped v s =
   { upload = s.upload; cf = s.cf; sf = s.sf; eo = s.eo; stopped = v;
     cleaned = s.cleaned; hp = s.hp; reader = s.reader; lpend = s.lpend; tcu =
-    s.tcu; tcl = s.tcl; tsv = s.tsv; ksched = s.ksched }
+    s.tcu; tcl = s.tcl; tsv = s.tsv; ksched = s.ksched; gbegun = s.gbegun }
 
 (** val set_cleaned : bool -> zstate -> zstate **)
 
 let set_cleaned v s =
   { upload = s.upload; cf = s.cf; sf = s.sf; eo = s.eo; stopped = s.stopped;
     cleaned = v; hp = s.hp; reader = s.reader; lpend = s.lpend; tcu = s.tcu;
-    tcl = s.tcl; tsv = s.tsv; ksched = s.ksched }
+    tcl = s.tcl; tsv = s.tsv; ksched = s.ksched; gbegun = s.gbegun }
 
 (** val set_hp : helper -> zstate -> zstate **)
 
 let set_hp v s =
   { upload = s.upload; cf = s.cf; sf = s.sf; eo = s.eo; stopped = s.stopped;
     cleaned = s.cleaned; hp = v; reader = s.reader; lpend = s.lpend; tcu =
-    s.tcu; tcl = s.tcl; tsv = s.tsv; ksched = s.ksched }
+    s.tcu; tcl = s.tcl; tsv = s.tsv; ksched = s.ksched; gbegun = s.gbegun }
 
 (** val set_reader : bool -> zstate -> zstate **)
 
 let set_reader v s =
   { upload = s.upload; cf = s.cf; sf = s.sf; eo = s.eo; stopped = s.stopped;
     cleaned = s.cleaned; hp = s.hp; reader = v; lpend = s.lpend; tcu = s.tcu;
-    tcl = s.tcl; tsv = s.tsv; ksched = s.ksched }
+    tcl = s.tcl; tsv = s.tsv; ksched = s.ksched; gbegun = s.gbegun }
 
 (** val set_lpend : bool -> zstate -> zstate **)
 
 let set_lpend v s =
   { upload = s.upload; cf = s.cf; sf = s.sf; eo = s.eo; stopped = s.stopped;
     cleaned = s.cleaned; hp = s.hp; reader = s.reader; lpend = v; tcu =
-    s.tcu; tcl = s.tcl; tsv = s.tsv; ksched = s.ksched }
+    s.tcu; tcl = s.tcl; tsv = s.tsv; ksched = s.ksched; gbegun = s.gbegun }
 
 (** val set_tcu : bool -> zstate -> zstate **)
 
 let set_tcu v s =
   { upload = s.upload; cf = s.cf; sf = s.sf; eo = s.eo; stopped = s.stopped;
     cleaned = s.cleaned; hp = s.hp; reader = s.reader; lpend = s.lpend; tcu =
-    v; tcl = s.tcl; tsv = s.tsv; ksched = s.ksched }
+    v; tcl = s.tcl; tsv = s.tsv; ksched = s.ksched; gbegun = s.gbegun }
 
 (** val set_tcl : bool -> zstate -> zstate **)
 
 let set_tcl v s =
   { upload = s.upload; cf = s.cf; sf = s.sf; eo = s.eo; stopped = s.stopped;
     cleaned = s.cleaned; hp = s.hp; reader = s.reader; lpend = s.lpend; tcu =
-    s.tcu; tcl = v; tsv = s.tsv; ksched = s.ksched }
+    s.tcu; tcl = v; tsv = s.tsv; ksched = s.ksched; gbegun = s.gbegun }
 
 (** val set_tsv : bool -> zstate -> zstate **)
 
 let set_tsv v s =
   { upload = s.upload; cf = s.cf; sf = s.sf; eo = s.eo; stopped = s.stopped;
     cleaned = s.cleaned; hp = s.hp; reader = s.reader; lpend = s.lpend; tcu =
-    s.tcu; tcl = s.tcl; tsv = v; ksched = s.ksched }
+    s.tcu; tcl = s.tcl; tsv = v; ksched = s.ksched; gbegun = s.gbegun }
 
 (** val set_ksched : bool -> zstate -> zstate **)
 
 let set_ksched v s =
   { upload = s.upload; cf = s.cf; sf = s.sf; eo = s.eo; stopped = s.stopped;
     cleaned = s.cleaned; hp = s.hp; reader = s.reader; lpend = s.lpend; tcu =
-    s.tcu; tcl = s.tcl; tsv = s.tsv; ksched = v }
+    s.tcu; tcl = s.tcl; tsv = s.tsv; ksched = v; gbegun = s.gbegun }
+
+(** val set_gbegun : bool -> zstate -> zstate **)
+
+let set_gbegun v s =
+  { upload = s.upload; cf = s.cf; sf = s.sf; eo = s.eo; stopped = s.stopped;
+    cleaned = s.cleaned; hp = s.hp; reader = s.reader; lpend = s.lpend; tcu =
+    s.tcu; tcl = s.tcl; tsv = s.tsv; ksched = s.ksched; gbegun = v }
 
 type fstate = { zs : zstate; ptr : bool }
 
@@ -216,14 +224,15 @@ type fstate = { zs : zstate; ptr : bool }
 let new_session up =
   { upload = up; cf = false; sf = false; eo = false; stopped = false;
     cleaned = false; hp = HNone; reader = false; lpend = true; tcu = false;
-    tcl = false; tsv = false; ksched = false }
+    tcl = false; tsv = false; ksched = false; gbegun = false }
 
 (** val idle : fstate **)
 
 let idle =
   { zs = { upload = false; cf = false; sf = false; eo = false; stopped =
     true; cleaned = true; hp = HNone; reader = false; lpend = false; tcu =
-    false; tcl = false; tsv = false; ksched = false }; ptr = false }
+    false; tcl = false; tsv = false; ksched = false; gbegun = true }; ptr =
+    false }
 
 type launch_res =
 | LaunchOk
@@ -241,6 +250,7 @@ type event =
 | EvCleanupFire
 | EvClientFire
 | EvServerFire
+| EvGraceBegin
 
 type msg =
 | MStopped
@@ -275,6 +285,8 @@ type output =
 | OArm of timer
 | OStopT of timer
 | OKill
+| OLaunchHelper
+| OCrash
 
 type res = zstate * output list
 
@@ -414,18 +426,24 @@ let helper_exit code s =
            TCleanup) :: (OCancelServer :: [])))))
   | _ -> (s, [])
 
+(** val grace_begin : zstate -> res **)
+
+let grace_begin s =
+  if (&&) s.lpend (negb s.gbegun) then ((set_gbegun true s), []) else (s, [])
+
 (** val launch : bool -> launch_res -> zstate -> res **)
 
 let launch fixed r s =
-  if negb s.lpend
+  if negb ((&&) s.lpend s.gbegun)
   then (s, [])
   else let s0 = set_lpend false s in
        if s0.stopped
        then (s0, [])
        else (match r with
              | LaunchOk ->
-               andthen (reset_client (set_reader true (set_hp HRun s0)))
-                 reset_server
+               andthen
+                 (andthen ((set_reader true (set_hp HRun s0)),
+                   (OLaunchHelper :: [])) reset_client) reset_server
              | LaunchFail -> handle_error fixed MLaunchFail s0
              | ChooserErr -> handle_error fixed MChooser s0)
 
@@ -515,6 +533,7 @@ let step_gen fixed f = function
     (if f.zs.tsv
      then handle_error fixed MServerTimeout (set_tsv false f.zs)
      else (f.zs, []))
+| EvGraceBegin -> lift f.ptr (grace_begin f.zs)
 
 (** val run_gen : bool -> fstate -> event list -> fres **)
 
@@ -530,8 +549,46 @@ type scripted =
 | ScHelperOut of coq_N list
 | ScHelperExit of coq_Z
 
+type remote_spec = { r_t0 : coq_N; r_period : coq_N; r_max : nat;
+                     r_hdr : coq_N list; r_prompt : coq_N list }
+
+(** val remote_stopper : output -> bool **)
+
+let remote_stopper = function
+| OServer b -> finish_find b
+| OCancelServer -> true
+| OOServer -> true
+| _ -> false
+
+(** val remote_waiting : output list -> bool **)
+
+let remote_waiting os =
+  negb (existsb remote_stopper os)
+
+(** val ends_in_cr : coq_N list -> bool **)
+
+let ends_in_cr b =
+  match rev b with
+  | [] -> false
+  | n :: _ ->
+    (match n with
+     | N0 -> false
+     | Npos p ->
+       (match p with
+        | Coq_xI p0 ->
+          (match p0 with
+           | Coq_xO p1 ->
+             (match p1 with
+              | Coq_xI p2 -> (match p2 with
+                              | Coq_xH -> true
+                              | _ -> false)
+              | _ -> false)
+           | _ -> false)
+        | _ -> false))
+
 type scenario = { sc_launch : launch_res; sc_autoexit : coq_Z option;
-                  sc_dlpath : bool; sc_readerr : bool list }
+                  sc_dlpath : bool; sc_greet : coq_N list;
+                  sc_remote : remote_spec option; sc_readerr : bool list }
 
 type pend = { p_launch : coq_N option; p_kill : coq_N option;
               p_cleanup : coq_N option; p_client : coq_N option;
@@ -648,9 +705,13 @@ let internal_events sc eof = function
   (EvLaunch
     sc.sc_launch) :: (match sc.sc_launch with
                       | LaunchOk ->
-                        (match sc.sc_autoexit with
-                         | Some c -> eof :: ((EvHelperExit c) :: [])
-                         | None -> [])
+                        app
+                          (match sc.sc_greet with
+                           | [] -> []
+                           | n :: l -> (EvHelperOut (n :: l)) :: [])
+                          (match sc.sc_autoexit with
+                           | Some c -> eof :: ((EvHelperExit c) :: [])
+                           | None -> [])
                       | _ -> [])
 | IKill -> eof :: ((EvHelperExit (Zneg Coq_xH)) :: [])
 | ICleanup -> EvCleanupFire :: []
@@ -666,7 +727,7 @@ let scripted_events eof = function
 | ScHelperExit c -> eof :: ((EvHelperExit c) :: [])
 
 type tstate = { t_f : fstate; t_p : pend; t_out : output list;
-                t_evs : event list }
+                t_evs : event list; t_rem : nat }
 
 (** val sessions : output list -> nat **)
 
@@ -682,13 +743,56 @@ let eof_event sc st =
   then EvHelperReadErr
   else EvHelperEOF
 
+(** val has_start : output list -> bool **)
+
+let has_start os =
+  existsb (fun o -> match o with
+                    | OStart _ -> true
+                    | _ -> false) os
+
+(** val apply_events1 :
+    bool -> scenario -> coq_N -> event list -> tstate -> tstate * output list **)
+
+let apply_events1 fixed sc t evs st =
+  let (_, o0) = run_gen fixed st.t_f evs in
+  let evs' = if has_start o0 then app evs (EvGraceBegin :: []) else evs in
+  let (f', o) = run_gen fixed st.t_f evs' in
+  ({ t_f = f'; t_p = (fold_left (note sc t) o st.t_p); t_out =
+  (app st.t_out o); t_evs = (app st.t_evs evs'); t_rem = st.t_rem }, o)
+
+(** val shell_answers :
+    scenario -> output list -> output list -> event list **)
+
+let shell_answers sc before o =
+  match sc.sc_remote with
+  | Some r ->
+    if remote_waiting (app before o)
+    then []
+    else flat_map (fun x ->
+           match x with
+           | OServer b ->
+             if ends_in_cr b then (EvServer r.r_prompt) :: [] else []
+           | _ -> []) o
+  | None -> []
+
 (** val apply_events :
     bool -> scenario -> coq_N -> event list -> tstate -> tstate **)
 
 let apply_events fixed sc t evs st =
-  let (f', o) = run_gen fixed st.t_f evs in
-  { t_f = f'; t_p = (fold_left (note sc t) o st.t_p); t_out =
-  (app st.t_out o); t_evs = (app st.t_evs evs) }
+  let (st1, o) = apply_events1 fixed sc t evs st in
+  (match shell_answers sc st.t_out o with
+   | [] -> st1
+   | e :: l -> fst (apply_events1 fixed sc t (e :: l) st1))
+
+(** val next_remote : scenario -> tstate -> (coq_N * remote_spec) option **)
+
+let next_remote sc st =
+  match sc.sc_remote with
+  | Some r ->
+    if Nat.ltb st.t_rem r.r_max
+    then Some ((N.add r.r_t0 (N.mul (N.of_nat (S st.t_rem)) r.r_period)), r)
+    else None
+  | None -> None
 
 (** val drain : nat -> bool -> scenario -> coq_N -> tstate -> tstate **)
 
@@ -696,16 +800,36 @@ let rec drain fuel fixed sc limit st =
   match fuel with
   | O -> st
   | S fuel' ->
+    let fire_remote = fun tr r ->
+      let st' = { t_f = st.t_f; t_p = st.t_p; t_out = st.t_out; t_evs =
+        st.t_evs; t_rem = (S st.t_rem) }
+      in
+      drain fuel' fixed sc limit
+        (if remote_waiting st.t_out
+         then apply_events fixed sc tr ((EvServer r.r_hdr) :: []) st'
+         else st')
+    in
+    let fire_internal = fun t i ->
+      drain fuel' fixed sc limit
+        (apply_events fixed sc t (internal_events sc (eof_event sc st) i)
+          { t_f = st.t_f; t_p = (clear i st.t_p); t_out = st.t_out; t_evs =
+          st.t_evs; t_rem = st.t_rem })
+    in
     (match next_internal st.t_p with
      | Some p ->
        let (t, i) = p in
-       if N.leb t limit
-       then drain fuel' fixed sc limit
-              (apply_events fixed sc t
-                (internal_events sc (eof_event sc st) i) { t_f = st.t_f;
-                t_p = (clear i st.t_p); t_out = st.t_out; t_evs = st.t_evs })
-       else st
-     | None -> st)
+       (match next_remote sc st with
+        | Some p0 ->
+          let (tr, r) = p0 in
+          if N.leb t tr
+          then if N.leb t limit then fire_internal t i else st
+          else if N.leb tr limit then fire_remote tr r else st
+        | None -> if N.leb t limit then fire_internal t i else st)
+     | None ->
+       (match next_remote sc st with
+        | Some p ->
+          let (tr, r) = p in if N.leb tr limit then fire_remote tr r else st
+        | None -> st))
 
 (** val drain_fuel : nat **)
 
@@ -732,7 +856,7 @@ let rec run_timed_from fixed sc evs horizon st =
 
 let run_timed fixed sc evs horizon =
   run_timed_from fixed sc evs horizon { t_f = idle; t_p = no_pend; t_out =
-    []; t_evs = [] }
+    []; t_evs = []; t_rem = O }
 
 (** val zmodem_detect : coq_N list -> bool option **)
 
@@ -818,21 +942,41 @@ let decode_scripted = function
             then ScHelperOut d
             else ScHelperExit c
 
-(** val zmodem_run_canon :
-    bool -> coq_N -> coq_Z option -> bool -> bool list -> coq_N ->
-    (coq_N * (coq_N * (coq_N list * coq_Z))) list -> ((coq_N * coq_N list)
-    list * coq_N list) * (bool list * (bool * bool)) **)
+(** val launches : output list -> coq_N **)
 
-let zmodem_run_canon fixed launch0 autoexit dl readerr horizon evs =
+let launches os =
+  N.of_nat
+    (length
+      (filter (fun o -> match o with
+                        | OLaunchHelper -> true
+                        | _ -> false) os))
+
+(** val zmodem_run_canon :
+    bool -> coq_N -> coq_Z option -> bool -> coq_N list ->
+    (coq_N * (coq_N * (nat * (coq_N list * coq_N list)))) option -> bool list
+    -> coq_N -> (coq_N * (coq_N * (coq_N list * coq_Z))) list ->
+    ((coq_N * coq_N list) list * coq_N list) * (bool
+    list * (bool * (bool * (coq_N * bool)))) **)
+
+let zmodem_run_canon fixed launch0 autoexit dl greet remote readerr horizon evs =
   let sc = { sc_launch =
     (if N.eqb launch0 N0
      then LaunchOk
      else if N.eqb launch0 (Npos Coq_xH) then LaunchFail else ChooserErr);
-    sc_autoexit = autoexit; sc_dlpath = dl; sc_readerr = readerr }
+    sc_autoexit = autoexit; sc_dlpath = dl; sc_greet = greet; sc_remote =
+    (match remote with
+     | Some p0 ->
+       let (t0, p1) = p0 in
+       let (p, p2) = p1 in
+       let (m, p3) = p2 in
+       let (h, pr) = p3 in
+       Some { r_t0 = t0; r_period = p; r_max = m; r_hdr = h; r_prompt = pr }
+     | None -> None); sc_readerr = readerr }
   in
   let st =
     run_timed fixed sc
       (map (fun e -> ((fst e), (decode_scripted (snd e)))) evs) horizon
   in
   (((canon_items st.t_out), (helper_bytes st.t_out)), ((flags_of st.t_f.zs),
-  (st.t_f.ptr, (started st.t_out))))
+  (st.t_f.ptr, ((started st.t_out), ((launches st.t_out),
+  (remote_waiting st.t_out))))))
